@@ -178,9 +178,13 @@ impl BlockRangeExt for BlockRange {
         let start = *self.start();
         let end = *self.end();
 
-        let Some(adjusted_end) = start.saturating_add(limit).checked_sub(1) else {
+        // Subtract before adding, otherwise the saturation at `u64::MAX` cuts the last
+        // height off ranges that end there (and `u64::MAX..=u64::MAX` becomes invalid).
+        let Some(offset) = limit.checked_sub(1) else {
+            // `limit == 0` is an empty range
             return RangeInclusive::new(1, 0);
         };
+        let adjusted_end = start.saturating_add(offset);
 
         start..=u64::min(end, adjusted_end)
     }
